@@ -11,7 +11,9 @@ CONSTRUCTS = ["and", "or", "which", "script", "interp", "none"]
 POSITIONS = ["assign", "default", "deparg", "interp", "fnarg", "condside", "branch", "assertmsg", "group", "joinop", "import", "submodule"]
 OPTINS = [("none", None), ("flag", None), ("set-root", None), ("set-module", None), ("set-true-module", None),
           ("set-false-module", None), ("set-false-root", None)] + [("env", v) for v in
-          ["1", "true", "yes", "x", "false", "0", "", "no", "off", "n", "f", "FALSE", "No"]]
+          ["1", "true", "yes", "x", "false", "0", "", "no", "off", "n", "f", "FALSE", "No"]] + \
+         [("flag+env", v) for v in ["0", "false", ""]] + [("set-module+env", v) for v in ["0", "false", ""]]
+# flag+env / set-module+env: an opt-in given together with a JUST_UNSTABLE value that is no opt-in by itself - any one opt-in is enough
 CMDS = [("run", ["r", "v"]), ("list", ["--list"]), ("summary", ["--summary"]), ("dump", ["--dump"]), ("show", ["--show", "r"]),
         ("evaluate", ["--evaluate"]), ("variables", ["--variables"]), ("groups", ["--groups"]), ("fmt", ["--fmt", "--check"]),
         ("dumpjson", ["--dump", "--dump-format", "json"])]
@@ -117,8 +119,8 @@ def build(case):
         assign = ""
         dep = "[group('script')]\nwhich:\n  [W]\n\nscript: which\n  [S]\n"
         imp += "[doc('uses && and ||')]\nscript-interpreter:\n  [SI]\n"
-    set_root = optkind == "set-root" or (optkind in ("set-module", "set-true-module") and where == "root")
-    set_sub = optkind in ("set-module", "set-true-module") and where == "sub"
+    set_root = optkind == "set-root" or (optkind in ("set-module", "set-true-module", "set-module+env") and where == "root")
+    set_sub = optkind in ("set-module", "set-true-module", "set-module+env") and where == "sub"
     if set_root:
         root += "set unstable := true\n" if optkind == "set-true-module" else "set unstable\n"
     if set_sub:
@@ -133,8 +135,8 @@ def build(case):
     files = {"justfile": root, "imp.just": imp + "\nir:\n  [IR]\n", "sub.just": sub}
     model = {"exprs": root_exprs, "scriptRecipe": script_root, "scriptInterpreter": interp_root, "setUnstable": set_root,
              "subs": [{"exprs": sub_exprs, "scriptRecipe": script_sub, "scriptInterpreter": interp_sub, "setUnstable": set_sub, "subs": []}]}
-    argv = (["--unstable"] if optkind == "flag" else []) + cmdargv
-    env = {"JUST_UNSTABLE": envval} if optkind == "env" else {}
+    argv = (["--unstable"] if optkind in ("flag", "flag+env") else []) + cmdargv
+    env = {"JUST_UNSTABLE": envval} if optkind in ("env", "flag+env", "set-module+env") else {}
     uses = construct != "none"
     return files, model, argv, env, {"uses": uses, "where": where, "set_root": set_root, "set_sub": set_sub}
 
@@ -206,8 +208,8 @@ def run(report):
     reqs = []
     for c, r in zip(cases, results):
         cmd = {"run": "run", "summary": "summary", "fmt": "fmt"}.get(c["cmd"][0], "other")
-        req = {"op": "unstable", "root": r["model"], "flag": c["optin"][0] == "flag",
-               "env": c["optin"][1] if c["optin"][0] == "env" else None, "cmd": cmd}
+        req = {"op": "unstable", "root": r["model"], "flag": c["optin"][0] in ("flag", "flag+env"),
+               "env": c["optin"][1] if c["optin"][0] in ("env", "flag+env", "set-module+env") else None, "cmd": cmd}
         if c.get("via", "direct") != "direct":
             req["below"] = [{"root": {"exprs": [], "scriptRecipe": False, "scriptInterpreter": False,
                                       "setUnstable": c["via"] == "fallback-child-unstable", "subs": []}, "fallback": True}]
@@ -227,7 +229,7 @@ def run(report):
         if optkind == "env":
             stats["env_values"][envval] = stats["env_values"].get(envval, 0) + 1
         # the statement, directly
-        glob = optkind == "flag" or (optkind == "env" and doc_truthy(envval)) or cmdname == "summary"
+        glob = optkind in ("flag", "flag+env") or (optkind == "env" and doc_truthy(envval)) or cmdname == "summary"
         module_ok = info["set_sub"] if info["where"] == "sub" else info["set_root"]
         want_refused = info["uses"] and not (glob or module_ok)
         if cmdname == "fmt" and not (glob or info["set_root"]):
